@@ -24,8 +24,9 @@ def PlaceOk (a0 : App) (unpl : Bool) (after : List Nat) (c : Cell) : Lab → Pro
   | .acquire a _ => a = a0.id ∧ a0.blacklisted = false ∧ unpl = false ∧ ∃ x, c.app? a = some x ∧ x.server = none
   | .appMeta a => a = a0.id ∧ a0.blacklisted = false ∧ unpl = false
   | .setRenew a b => a = a0.id ∧ a0.blacklisted = false ∧ unpl = false ∧ (b = true → a0.renew = true)
-  | .ghost a => a ≠ a0.id ∧ a ∈ after ∧ a0.blacklisted = false ∧ unpl = false ∧
-      ∃ x sid s, c.app? a = some x ∧ x.server = some sid ∧ c.srv? sid = some s ∧ s.state = .up
+  | .ghost a v => a ≠ a0.id ∧ a ∈ after ∧ a0.blacklisted = false ∧ unpl = false ∧
+      ∃ x sid s, c.app? a = some x ∧ x.server = some sid ∧ c.srv? sid = some s ∧ s.state = .up ∧
+        v = some (sid, x.expiry)
   | .tree => True
   | _ => False
 
@@ -121,11 +122,11 @@ theorem restoreEvicted_lreach {c c' : Cell} {a0 : App} {aid : Nat} {b : Bool} {a
       | true =>
         simp only [↓reduceIte, pure_ok, Prod.mk.injEq] at h
         obtain ⟨rfl, _⟩ := h
-        exact r2.step (setMeta_lprim ha3 rfl rfl rfl rfl rfl rfl rfl rfl rfl rfl rfl rfl rfl rfl rfl rfl) ⟨hid.symm, hbl, rfl⟩
+        exact r2.step (setMeta_lprim ha3 rfl rfl rfl rfl rfl rfl rfl rfl rfl rfl rfl rfl rfl rfl rfl rfl (Or.inr rfl)) ⟨hid.symm, hbl, rfl⟩
       | false =>
         simp only [Bool.false_eq_true, ↓reduceIte, pure_ok, Prod.mk.injEq] at h
         obtain ⟨rfl, _⟩ := h
-        exact r2.step (setMeta_lprim ha3 rfl rfl rfl rfl rfl rfl rfl rfl rfl rfl rfl rfl rfl rfl rfl rfl) ⟨hid.symm, hbl, rfl⟩
+        exact r2.step (setMeta_lprim ha3 rfl rfl rfl rfl rfl rfl rfl rfl rfl rfl rfl rfl rfl rfl rfl rfl (Or.inr rfl)) ⟨hid.symm, hbl, rfl⟩
   · simp only [pure_ok, Prod.mk.injEq] at h
     obtain ⟨rfl, _⟩ := h; exact .refl
 
@@ -258,7 +259,7 @@ theorem evictLoop_lreach {a0 : App} {aid : Nat} (hid : a0.id = aid) (hbl : a0.bl
           have g := ghost_lprim hea (some (sid, ea.expiry))
           have r0 : LReach (PlaceOk a0 false (e :: rest.takeWhile (· ≠ aid))) c
               (c.setApp { ea with evFrom := some (sid, ea.expiry) }) :=
-            LReach.single g ⟨hne', hmem, hbl, rfl, ea, sid, s, hea, hsv, hs, hup'⟩
+            LReach.single g ⟨hne', hmem, hbl, rfl, ea, sid, s, hea, hsv, hs, hup', rfl⟩
           have hea' : (c.setApp { ea with evFrom := some (sid, ea.expiry) }).app? e =
               some { ea with evFrom := some (sid, ea.expiry) } := by
             have hide : e = ea.id := (app?_id hea).symm
